@@ -36,3 +36,36 @@ Theorem C11_stops_at_episode_limit : forall c script start E, c_limit c = Some E
   count_episodes (l_log s) <= E /\ (l_stop s = true <-> count_episodes (l_log s) = E).
 Proof. exact stops_at_episode_limit. Qed.
 Print Assumptions C11_stops_at_episode_limit.
+
+(* ------------------------------------------------------------------ *)
+(** Task selectors and the discounted-UCB bandit (blox/multitask.py, blox/mapb.py) *)
+From Coq Require Import Reals.
+From RLV Require Import Model.Num Model.Bandit Proofs.BanditProofs.
+
+(** an accepted sequence of select / feedback calls strictly alternates, starting with select *)
+Theorem C11_selector_alternates : forall ops w', sel_run false ops = Some w' -> alternates OpSelect ops.
+Proof. exact (fun ops w' H => sel_run_alternates ops false w' H). Qed.
+Print Assumptions C11_selector_alternates.
+
+(** round robin: only valid positions, and every task within any n consecutive selections *)
+Theorem C11_round_robin_valid : forall n, 0 < n -> forall k i, Forall (fun t => t < n) (rr_run i n k).
+Proof. exact rr_valid. Qed.
+Print Assumptions C11_round_robin_valid.
+Theorem C11_round_robin_covers : forall n, 0 < n -> forall i t, t < n -> exists j, j < n /\ nth j (rr_run i n n) 0 = t.
+Proof. exact rr_covers. Qed.
+Print Assumptions C11_round_robin_covers.
+
+(** discounted UCB: always a valid arm; round robin over the arms during the first 2n rounds;
+    afterwards an arm maximising discounted mean reward plus exploration bonus *)
+Theorem C11_ducb_valid_arm : forall (ub g zeta : R) n, 0 < n -> forall hist, ducb_choose ub g zeta n hist < n.
+Proof. exact ducb_valid. Qed.
+Print Assumptions C11_ducb_valid_arm.
+Theorem C11_ducb_initial_rounds : forall (ub g zeta : R) n, 0 < n -> forall rewards hist k,
+  length hist + k < 2 * n -> k < length rewards ->
+  nth k (ducb_run ub g zeta n hist rewards) 0 = (length hist + k) mod n.
+Proof. exact ducb_run_initial. Qed.
+Print Assumptions C11_ducb_initial_rounds.
+Theorem C11_ducb_maximises : forall (ub g zeta : R) n, 0 < n -> forall hist, 2 * n <= length hist ->
+  forall arm, arm < n -> (dscore ub g zeta n hist arm <= dscore ub g zeta n hist (ducb_choose ub g zeta n hist))%R.
+Proof. exact ducb_maximises. Qed.
+Print Assumptions C11_ducb_maximises.
